@@ -26,10 +26,11 @@ import (
 // C09 — field selection and JSON naming coincide with encoding/json.
 
 type c09Case struct {
-	Spec  *synth.Spec `json:"spec"`
-	Spec2 *synth.Spec `json:"spec2"` // metamorphic variant: Spec with an ignored field added / removed / retyped
-	Edit  string      `json:"edit"`
-	Seed  int64       `json:"seed"`
+	Spec   *synth.Spec `json:"spec"`
+	Spec2  *synth.Spec `json:"spec2"` // metamorphic variant: Spec with an ignored field added / removed / retyped
+	Edit   string      `json:"edit"`
+	Seed   int64       `json:"seed"`
+	Checks int         `json:"checks,omitempty"`
 }
 
 func cloneSpec(s *synth.Spec) *synth.Spec {
@@ -64,7 +65,7 @@ func c09Gen(t *rapid.T, r *h.Rec) c09Case {
 	o.EmbedNamed = true
 	o.MaxDecls = 7
 	spec := synth.GenTypes(t, o)
-	c := c09Case{Spec: spec, Seed: int64(rapid.IntRange(1, 1<<30).Draw(t, "childSeed"))}
+	c := c09Case{Spec: spec, Seed: int64(rapid.IntRange(1, 1<<30).Draw(t, "childSeed")), Checks: childChecks(25, 80)}
 	// metamorphic edit on one struct of the analysed file
 	spec2 := cloneSpec(spec)
 	var structs []*synth.Decl
@@ -324,7 +325,7 @@ func c09Check(c c09Case, r *h.Rec) error {
 	}
 
 	// ---- (a) ground truth from the real encoder ---------------------------------
-	ec := execCase{Spec: c.Spec, Seed: c.Seed}
+	ec := execCase{Spec: c.Spec, Seed: c.Seed, Checks: c.Checks}
 	_, res, _, err := childDocs(ec, r, "docs", nil, "")
 	if err != nil || res == nil {
 		return err
